@@ -2,6 +2,8 @@ package main
 
 import (
 	"fmt"
+	"go/constant"
+	"go/token"
 	"go/types"
 	"sort"
 	"strings"
@@ -16,7 +18,7 @@ func init() {
 	register(&Property{
 		ID:        "C23",
 		Title:     "IPAM garbage collection never frees an address that is still in use",
-		Technique: "static analysis: who-may-call, cut-set guards with flag-variable (phi) reasoning incl. absorbing (veto) flags, slice-element provenance, pairing of bookkeeping maps (go/ssa over kube-controllers/pkg/controllers/node)",
+		Technique: "static analysis: who-may-call, cut-set guards with flag-variable (phi) reasoning incl. absorbing (veto) flags, slice-element provenance, pairing of bookkeeping maps, return-contract of derived name sources, edge facts lifted through flags and helper functions (go/ssa over kube-controllers/pkg/controllers/node)",
 		DesignRef: "DESIGN.md §3 C23",
 		Explanation: "Decides structural clauses of the IPAM GC in the node controller: (own) every releasing call on the IPAM client is made from its one GC function; " +
 			"(final) every ReleaseOptions appended to the argument of ReleaseIPs comes from allocation.ReleaseOptions() of an allocation a for which, on every path, allocationIsValid(a,…) " +
@@ -28,8 +30,10 @@ func init() {
 			"(lastblock) ReleaseBlockAffinity is reached only with len(blocksByNode[node]) >= 2 for the node of the ranged empty block, after blockReleaseTracker.markEmpty(cidr) returned true, " +
 			"for the cached block of the same CIDR, with mustBeEmpty=true, and a successful release is followed by forgetBlock(cidr) before the next iteration; markEmpty returns true only " +
 			"on a second observation later than the grace period; (book) forgetBlock deletes the CIDR from every per-block map that onBlockUpdated fills, and releaseAllocation undoes " +
-			"every registration of assignAllocation plus the confirmedLeaks entry.",
-		NotDecided: "Correctness of allocationIsValid's decision tree itself (pod/VM lookups, stale caches), behaviour of the IPAM library (sequence-number compare, partial release), " +
+			"every registration of assignAllocation plus the confirmedLeaks entry; " +
+			"(knode) the node name that the scan passes to nodeExists() - whose emptiness counts as 'the Kubernetes node is gone' - comes from a (string, error) lookup, untimed confirmation is only reachable where that lookup's error was nil, and the lookup (kubernetesNodeForCalico, followed through `return f(x)` into getK8sNodeName) returns a nil error only together with a name tested non-empty or after Nodes().Get() failed with ErrorResourceDoesNotExist (type assertion or errors.As), so a cached \"\" placeholder, a non-Kubernetes node or a transient error never reads as a deleted node; " +
+			"(vm) every function that consults DeferredInformers.VMInstanceIndexer() returns false only where VMIndexer().GetByKey reported the VirtualMachine absent and VMInstanceIndexer().GetByKey reported the instance absent or a metav1.OwnerReference.Kind == \"VirtualMachine\" (name of the KubeVirt API type) comparison held - established directly, through a flag variable, or inside boolean / nil-returning helper functions.",
+		NotDecided: "Correctness of allocationIsValid's decision tree for pods (pod lookup, rescheduling, IP match) and stale caches; for VMs only the evidence behind a false verdict is decided, not that the owner reference belongs to the looked-up instance or carries the KubeVirt API group; behaviour of the IPAM library (sequence-number compare, partial release), " +
 			"splitting of one handle across two batches by maxBatchSize, timing (what 'now' is), and that onBlockUpdated's diff of current vs. known allocations is complete.",
 		Assumptions: []string{
 			"go/types + go/ssa (x/tools v0.50.0) model of the current source, CGO_ENABLED=0 build",
@@ -95,6 +99,20 @@ func init() {
 				Old: "\tdelete(c.nodesByBlock, blockCIDR)\n\tdelete(c.emptyBlocks, blockCIDR)\n\tdelete(c.coldBlocks, blockCIDR)\n", New: "\tdelete(c.nodesByBlock, blockCIDR)\n\tdelete(c.coldBlocks, blockCIDR)\n", Expect: "C23.book/forgetBlock/emptyBlocks"},
 			{Name: "releaseAllocation keeps the confirmed-leak entry", File: "kube-controllers/pkg/controllers/node/ipam.go",
 				Old: "\tc.handleTracker.removeAllocation(a)\n\tdelete(c.confirmedLeaks, a.id())\n", New: "\tc.handleTracker.removeAllocation(a)\n", Expect: "C23.book/releaseAllocation/confirmedLeaks"},
+			{Name: "cached placeholder for a non-Kubernetes node returned as the node name", File: "kube-controllers/pkg/controllers/node/ipam.go",
+				Old: "if kn, ok := c.kubernetesNodesByCalicoName[cnode]; ok && kn != \"\" {", New: "if kn, ok := c.kubernetesNodesByCalicoName[cnode]; ok {", Expect: "C23.knode/gone/IPAMController.kubernetesNodeForCalico"},
+			{Name: "any datastore error reads as 'Calico node does not exist'", File: "kube-controllers/pkg/controllers/node/ipam.go",
+				Old: "\t\tif _, ok := err.(cerrors.ErrorResourceDoesNotExist); ok {\n\t\t\tlog.WithError(err).Info(\"Calico Node referenced in IPAM data does not exist\")", New: "\t\tif _, ok := err.(cerrors.ErrorResourceDoesNotExist); !ok {\n\t\t\tlog.WithError(err).Info(\"Calico Node referenced in IPAM data does not exist\")", Expect: "C23.knode/gone/IPAMController.kubernetesNodeForCalico"},
+			{Name: "k8s orchRef without a node name yields an empty name and no error", File: "kube-controllers/pkg/controllers/node/controller.go",
+				Old: "\t\t\tif orchRef.NodeName == \"\" {\n\t\t\t\treturn \"\", &ErrorNotKubernetes{calicoNode.Name}\n\t\t\t} else {\n\t\t\t\treturn orchRef.NodeName, nil\n\t\t\t}\n", New: "\t\t\treturn orchRef.NodeName, nil\n", Expect: "C23.knode/gone/getK8sNodeName"},
+			{Name: "node-name lookup error no longer skips the node", File: "kube-controllers/pkg/controllers/node/ipam.go",
+				Old: "\t\t\tc.allocationState.markClean(cnode, \"node lookup skipped\")\n\t\t\tcontinue\n", New: "\t\t\tc.allocationState.markClean(cnode, \"node lookup skipped\")\n", Expect: "C23.knode/lookup-ok/IPAMController.checkAllocations"},
+			{Name: "any controller owner counts as a VirtualMachine owner", File: "kube-controllers/pkg/controllers/node/ipam.go",
+				Old: "\t\tif vmi.OwnerReferences[i].Kind == \"VirtualMachine\" {", New: "\t\tif vmi.OwnerReferences[i].Controller != nil && *vmi.OwnerReferences[i].Controller {", Expect: "C23.vm/standalone/IPAMController.isVMAllocationValid"},
+			{Name: "standalone test inverted", File: "kube-controllers/pkg/controllers/node/ipam.go",
+				Old: "\t\tif !hasVMOwner(vmi) {", New: "\t\tif hasVMOwner(vmi) {", Expect: "C23.vm/standalone/IPAMController.isVMAllocationValid"},
+			{Name: "existing VirtualMachine no longer justifies its address", File: "kube-controllers/pkg/controllers/node/ipam.go",
+				Old: "\tif vmExists {\n\t\tlogc.Debug(\"VM found, allocation is valid\")\n\t\treturn true\n\t}\n", New: "\t_ = vmExists\n", Expect: "C23.vm/novm/IPAMController.isVMAllocationValid"},
 			{Name: "releaseAllocation leaves the handle tracker entry", File: "kube-controllers/pkg/controllers/node/ipam.go",
 				Old: "\tc.handleTracker.removeAllocation(a)\n\tdelete(c.confirmedLeaks, a.id())\n", New: "\tdelete(c.confirmedLeaks, a.id())\n", Expect: "C23.book/releaseAllocation/handleTracker"},
 		},
@@ -138,6 +156,8 @@ func runC23(c *Ctx) {
 	c.Rule("C23.grace", "E-GUARD/E-OWN", "timed confirmation only after time.Since(*leakedAt) > grace with grace > 0; timer started only when unset, cleared by markValid; VM grace floored by vmRecreationGracePeriod", 10)
 	c.Rule("C23.handle", "E-GUARD/E-PAIR", "handleTracker.isConfirmedLeak is a universal quantifier over the handle's allocations; every tracked allocation is registered with the handle tracker", 3)
 	c.Rule("C23.lastblock", "E-GUARD/E-FLOW/E-PAIR", "ReleaseBlockAffinity only with >= 2 blocks on the block's node, after a second-observation markEmpty, mustBeEmpty=true, followed by forgetBlock; markEmpty true only after the grace period", 8)
+	c.Rule("C23.knode", "E-GUARD/E-FLOW", "the node name the scan tests with nodeExists() comes from a (string, error) lookup whose error was nil; that lookup (followed through tail delegation) returns a nil error only with a name tested non-empty or after ErrorResourceDoesNotExist from Nodes().Get()", 3)
+	c.Rule("C23.vm", "E-GUARD", "the VM/VMI cache consulter returns false only where the VirtualMachine lookup said absent and the instance lookup said absent or an OwnerReference.Kind == VirtualMachine comparison held (directly, via flag, or inside a boolean helper)", 2)
 	c.Rule("C23.book", "E-PAIR", "forgetBlock clears every per-block map filled by onBlockUpdated; releaseAllocation undoes every registration made by assignAllocation and the confirmedLeaks entry", 13)
 
 	c23Own(m)
@@ -147,6 +167,8 @@ func runC23(c *Ctx) {
 	c23Handle(m)
 	c23LastBlock(m)
 	c23Book(m)
+	c23KNode(m)
+	c23VM(m)
 }
 
 // ------------------------------------------------------------------- own --
@@ -964,5 +986,492 @@ func c23Book(m *c23Model) {
 		}
 		c.Check(ok, "C23.book/releaseAllocation/"+fv.Name(), p.Pos(release.Pos()),
 			"releaseAllocation deletes a.id() from "+fv.Name(), "releaseAllocation does not delete a.id() from "+fv.Name()+": a released (possibly re-allocated) address stays scheduled for garbage collection")
+	}
+}
+
+// ----------------------------------------------------------------- knode --
+//
+// The scan treats "Kubernetes node name is empty, lookup error is nil" as proof
+// that the node is gone: it is what makes kubernetesNodeExists false without a
+// nodeExists() query (c23NotExists accepts `name == ""`), which in turn skips the
+// grace period and hands the node to releaseNodes.  That reading is only sound if
+// the function(s) producing the name keep the contract
+//
+//	(name, nil)  =>  name != ""  or  the datastore said the Calico node does not exist
+//
+// on every return, i.e. "this is not a Kubernetes node" / "lookup failed" / a
+// cached placeholder can never come back as ("", nil).  The name sources are
+// derived from the code: whatever call produces the value passed to nodeExists()
+// in a function that confirms leaks without a timer, followed through tail
+// delegation (`return f(x)`).
+
+const c23ErrorsPkg = "libcalico-go/lib/errors"
+const c23ClientPkg = "libcalico-go/lib/clientv3"
+
+func c23IsEmptyString(v ssa.Value) bool {
+	cv, ok := constOf(v)
+	return ok && cv.Kind() == constant.String && constant.StringVal(cv) == ""
+}
+
+// c23NotFoundEvidence: edge on which an error obtained from NodeInterface.Get was
+// identified as "resource does not exist": a typed assertion to
+// errors.ErrorResourceDoesNotExist succeeded, or errors.As(err, &target) with a
+// target of that type returned true.  Inside a helper (a function that is not
+// itself a name source) the error may be the helper's parameter.
+func c23NotFoundEvidence(isSource func(*ssa.Function) bool) EdgePred {
+	fromNodeGet := func(v ssa.Value) bool {
+		return c23OriginCalls(v, func(call *ssa.Call) bool {
+			f := calleeOf(call.Common())
+			return f != nil && f.Name() == "Get" && f.Pkg() != nil && f.Pkg().Path() == calicoPrefix+c23ClientPkg && recvTypeName(f) == "NodeInterface"
+		}, func(leaf ssa.Value) bool {
+			prm, ok := leaf.(*ssa.Parameter)
+			return ok && !isSource(prm.Parent())
+		})
+	}
+	isDNE := func(t types.Type) bool { return qualTypeName(t) == c23ErrorsPkg+".ErrorResourceDoesNotExist" }
+	return func(cond ssa.Value, pol bool) bool {
+		if !pol {
+			return false
+		}
+		switch x := cond.(type) {
+		case *ssa.Extract:
+			ta, ok := x.Tuple.(*ssa.TypeAssert)
+			return ok && x.Index == 1 && ta.CommaOk && isDNE(ta.AssertedType) && fromNodeGet(ta.X)
+		case *ssa.Call:
+			f := calleeOf(x.Common())
+			if f == nil || f.Pkg() == nil || f.Pkg().Path() != "errors" || f.Name() != "As" || len(x.Call.Args) != 2 {
+				return false
+			}
+			target := x.Call.Args[1]
+			if mi, ok := target.(*ssa.MakeInterface); ok {
+				target = mi.X
+			}
+			pt, ok := target.Type().Underlying().(*types.Pointer)
+			return ok && isDNE(pt.Elem()) && fromNodeGet(x.Call.Args[0])
+		}
+		return false
+	}
+}
+
+type c23NameSource struct {
+	host *ssa.Function // function that consumes the name
+	call *ssa.Call     // the (string, error) call producing it
+}
+
+func c23KNode(m *c23Model) {
+	c, p := m.c, m.p
+	// (0) derive the name sources
+	var sources []c23NameSource
+	untimed := map[*ssa.Function][]CallSite{}
+	for _, f := range m.funcs {
+		if fnName(f) == "allocation.markLeak" {
+			continue
+		}
+		for _, cs := range callsIn(f, false, func(fn *types.Func) bool { return isFunc(fn, c23Pkg, "allocation.markConfirmedLeak") }) {
+			untimed[f] = append(untimed[f], cs)
+		}
+	}
+	var hosts []*ssa.Function
+	for f := range untimed {
+		hosts = append(hosts, f)
+	}
+	sort.Slice(hosts, func(i, j int) bool { return fnName(hosts[i]) < fnName(hosts[j]) })
+	for _, f := range hosts {
+		seen := map[*ssa.Call]bool{}
+		for _, cs := range callsIn(f, false, func(fn *types.Func) bool { return isFunc(fn, c23Pkg, "IPAMController.nodeExists") }) {
+			if a := cs.Args(); len(a) == 2 {
+				c23Back(a[1], nil, func(leaf ssa.Value) {
+					call, ok := leaf.(*ssa.Call)
+					if !ok || seen[call] {
+						return
+					}
+					if res := call.Call.Signature().Results(); res.Len() == 2 && c23IsStringErr(res) {
+						seen[call] = true
+						sources = append(sources, c23NameSource{f, call})
+					}
+				})
+			}
+		}
+	}
+	if len(sources) == 0 {
+		c.Lost("no (string, error) call produces the node name that the untimed-confirmation scan passes to nodeExists()")
+	}
+	// (1) the consumer acts on the name only when the lookup reported no error
+	var roots []*ssa.Function
+	for _, src := range sources {
+		host := fnName(src.host)
+		var errVal ssa.Value
+		for _, r := range *src.call.Referrers() {
+			if ex, ok := r.(*ssa.Extract); ok && ex.Index == 1 {
+				errVal = ex
+			}
+		}
+		calleeName := "?"
+		if f := calleeOf(src.call.Common()); f != nil {
+			calleeName = f.Name()
+		}
+		ok := errVal != nil
+		if ok {
+			noErr := eqCond(true, func(v ssa.Value) bool { return v == errVal }, isNilConst)
+			for _, cs := range untimed[src.host] {
+				if !guardedCut(cs.Instr, noErr) {
+					ok = false
+				}
+			}
+		}
+		c.Check(ok, "C23.knode/lookup-ok/"+host, p.Pos(src.call.Pos()),
+			"every untimed markConfirmedLeak in "+host+" is only reachable where the error of "+calleeName+"() was nil",
+			"untimed markConfirmedLeak in "+host+" is reachable although "+calleeName+"() returned an error (or its error is discarded): an unknown / non-Kubernetes node reads as \"node is gone\" and its addresses are confirmed leaks without a grace period")
+		callee := calleeFn(src.call.Common())
+		if callee == nil || callee.Blocks == nil {
+			c.Undecided("C23.knode/gone/"+calleeName, p.Pos(src.call.Pos()), "the node name comes from %s, which has no body in the loaded program", calleeName)
+			continue
+		}
+		roots = append(roots, callee)
+	}
+	// (2) the contract of the name sources
+	done := map[*ssa.Function]bool{}
+	gone := c23NewLifter(c23NotFoundEvidence(func(f *ssa.Function) bool { return done[f] }))
+	for len(roots) > 0 {
+		fn := roots[0]
+		roots = roots[1:]
+		if done[fn] {
+			continue
+		}
+		done[fn] = true
+		name := fnName(fn)
+		var bad, unsure []string
+		nNil := 0
+		for _, r := range returnsOf(fn) {
+			if isPanicBlock(r.Block()) {
+				continue
+			}
+			if len(r.Results) != 2 {
+				c.Lost("%s: expected (string, error) results", name)
+			}
+			s, e := r.Results[0], r.Results[1]
+			// tail delegation: return g(x)
+			if es, ok := s.(*ssa.Extract); ok {
+				if ee, ok2 := e.(*ssa.Extract); ok2 && es.Tuple == ee.Tuple && es.Index == 0 && ee.Index == 1 {
+					if call, isCall := es.Tuple.(*ssa.Call); isCall {
+						if g := calleeFn(call.Common()); g != nil && g.Blocks != nil {
+							roots = append(roots, g)
+						} else {
+							unsure = append(unsure, "delegates to "+path(call)+" (no body)")
+						}
+						continue
+					}
+				}
+			}
+			// a return that certainly carries an error
+			if _, isMI := e.(*ssa.MakeInterface); isMI {
+				continue
+			}
+			if guardedCut(r, eqCond(false, func(v ssa.Value) bool { return c23Same(v, e) }, isNilConst)) {
+				continue
+			}
+			nNil++
+			nonEmpty := false
+			if cv, isConst := constOf(s); isConst {
+				nonEmpty = cv.Kind() == constant.String && constant.StringVal(cv) != ""
+			} else {
+				isS := func(v ssa.Value) bool { return c23Same(v, s) }
+				isLenS := func(v ssa.Value) bool {
+					call, ok := v.(*ssa.Call)
+					if !ok {
+						return false
+					}
+					b, ok := call.Call.Value.(*ssa.Builtin)
+					return ok && b.Name() == "len" && isS(call.Call.Args[0])
+				}
+				nonEmpty = guardedCut(r, anyOf(eqCond(false, isS, c23IsEmptyString), c23IntAtLeast(1, isLenS)))
+			}
+			if nonEmpty || guardedCut(r, gone.Pred) {
+				continue
+			}
+			what := fmt.Sprintf("returns (%s, %s) at %s", c23Short(s), c23Short(e), p.Pos(r.Pos()))
+			fromCall := false // the name is computed by another function: its emptiness cannot be judged here
+			c23Back(s, nil, func(leaf ssa.Value) {
+				if call, ok := leaf.(*ssa.Call); ok {
+					if _, builtin := call.Call.Value.(*ssa.Builtin); !builtin {
+						fromCall = true
+					}
+				}
+			})
+			switch {
+			case !isNilConst(e):
+				unsure = append(unsure, what+" and the error may be nil")
+			case fromCall:
+				unsure = append(unsure, what+" with a name computed by a call")
+			case len(gone.Unsure) > 0 || guardedCut(r, gone.PredOrOpaque):
+				unsure = append(unsure, what+" behind conditions computed by functions without a body")
+			default:
+				bad = append(bad, what)
+			}
+		}
+		site := p.Pos(fn.Pos())
+		switch {
+		case len(bad) > 0:
+			c.Violate("C23.knode/gone/"+name, site,
+				"%s %s: a nil error with a name that is neither tested non-empty nor backed by ErrorResourceDoesNotExist from Nodes().Get(). The scan reads (\"\", nil) as \"the Kubernetes node is gone\" (no nodeExists() query, no grace period, node handed to ReleaseHostAffinities); a cached placeholder or a node that is not a Kubernetes node must not produce it",
+				name, strings.Join(bad, "; "))
+		case len(unsure) > 0:
+			c.Undecided("C23.knode/gone/"+name, site, "%s: %s", name, strings.Join(unsure, "; "))
+		default:
+			c.Ok("C23.knode/gone/"+name, site, "%d return(s) of %s may carry a nil error; each returns a name tested non-empty or follows ErrorResourceDoesNotExist from Nodes().Get()", nNil, name)
+		}
+	}
+}
+
+func c23IsStringErr(res *types.Tuple) bool {
+	b, ok := res.At(0).Type().Underlying().(*types.Basic)
+	if !ok || b.Info()&types.IsString == 0 {
+		return false
+	}
+	n, ok := res.At(1).Type().(*types.Named)
+	return ok && n.Obj().Pkg() == nil && n.Obj().Name() == "error"
+}
+
+// -------------------------------------------------------------------- vm --
+//
+// A VM allocation is justified by its VirtualMachine, or - if that is absent - by
+// a VirtualMachineInstance of the same name unless the instance is the left-over
+// of a VirtualMachine (owner reference of that kind).  So the function that
+// consults the VM/VMI informer caches may answer "not valid" only where
+//   (novm)       the VirtualMachine lookup said "does not exist", and
+//   (standalone) the VirtualMachineInstance lookup said "does not exist", or an
+//                owner reference of the instance was compared equal to the
+//                VirtualMachine kind.
+// Both facts may be established directly, through a flag variable or inside a
+// boolean helper (c23Lifter).  Any other classification of an existing instance
+// ("has some controller", "has any owner", a different kind) dismisses instances
+// that nothing is going to delete.
+
+const c23KubevirtPkg = "libcalico-go/lib/kubevirt"
+const c23KubevirtAPI = "kubevirt.io/api/core/v1"
+const c23MetaV1 = "k8s.io/apimachinery/pkg/apis/meta/v1"
+
+func c23VM(m *c23Model) {
+	c, p := m.c, m.p
+	kindVar, _ := p.LookupExt(c23MetaV1, "OwnerReference.Kind").(*types.Var)
+	if kindVar == nil {
+		c.Lost("field %s.OwnerReference.Kind", c23MetaV1)
+	}
+	vmType, _ := p.LookupExt(c23KubevirtAPI, "VirtualMachine").(*types.TypeName)
+	if vmType == nil {
+		c.Lost("type %s.VirtualMachine", c23KubevirtAPI)
+	}
+	for _, n := range []string{"VMIndexer", "VMInstanceIndexer"} {
+		if p.LookupExt(c23KubevirtPkg, "DeferredInformers."+n) == nil {
+			c.Lost("method %s.DeferredInformers.%s", c23KubevirtPkg, n)
+		}
+	}
+	wantKind := vmType.Name() // a Kubernetes kind is the name of its Go API type
+	isIndexer := func(which string) func(*ssa.Call) bool {
+		return func(call *ssa.Call) bool {
+			return isFunc(calleeOf(call.Common()), c23KubevirtPkg, "DeferredInformers."+which)
+		}
+	}
+	// exists(which) == want, from `_, exists, _ := <which>().GetByKey(key)`
+	existsCond := func(want bool, which string) EdgePred {
+		return func(cond ssa.Value, pol bool) bool {
+			if pol != want {
+				return false
+			}
+			ex, ok := cond.(*ssa.Extract)
+			if !ok || ex.Index != 1 {
+				return false
+			}
+			call, ok := ex.Tuple.(*ssa.Call)
+			if !ok || !call.Call.IsInvoke() || call.Call.Method.Name() != "GetByKey" {
+				return false
+			}
+			return c23OriginCalls(call.Call.Value, isIndexer(which), nil)
+		}
+	}
+	isKind := func(v ssa.Value) bool { return fieldVar(v) == kindVar }
+	isVMKind := func(v ssa.Value) bool {
+		if cv, ok := constOf(v); ok {
+			return cv.Kind() == constant.String && constant.StringVal(cv) == wantKind
+		}
+		// kubevirtv1.VirtualMachineGroupVersionKind.Kind
+		if fv := fieldVar(v); fv != nil && fv.Name() == "Kind" {
+			if _, _, base, ok := fieldOf(v); ok {
+				if g, isG := base.(*ssa.Global); isG && g.Pkg != nil && g.Pkg.Pkg.Path() == c23KubevirtAPI && g.Name() == wantKind+"GroupVersionKind" {
+					return true
+				}
+			}
+		}
+		return false
+	}
+	ownedByVM := eqCond(true, isKind, isVMKind)
+	// A call without a body can only have tested for the VirtualMachine kind if it
+	// knows the kind: it is told (a constant equal to the kind, a GroupVersionKind /
+	// GroupKind value, a function value) or it belongs to the KubeVirt API / Calico's
+	// KubeVirt library.  Generic Kubernetes helpers that are only handed the object
+	// cannot establish the fact, so they are not "opaque".
+	mayKnowKind := func(call *ssa.Call) bool {
+		f := calleeOf(call.Common())
+		if f == nil || f.Pkg() == nil {
+			return true
+		}
+		if pp := f.Pkg().Path(); strings.HasPrefix(pp, "kubevirt.io/") || pp == calicoPrefix+c23KubevirtPkg {
+			return true
+		}
+		for _, a := range call.Call.Args {
+			if isVMKind(a) {
+				return true
+			}
+			if mi, ok := a.(*ssa.MakeInterface); ok {
+				a = mi.X
+			}
+			if _, isFn := a.Type().Underlying().(*types.Signature); isFn {
+				return true
+			}
+			if tn := qualTypeName(a.Type()); strings.HasSuffix(tn, ".GroupVersionKind") || strings.HasSuffix(tn, ".GroupKind") {
+				return true
+			}
+		}
+		return false
+	}
+	// ... and it can only have looked at the instance's owners if it is handed the
+	// instance, its metadata or its owner references.
+	takesInstance := func(call *ssa.Call) bool {
+		args := call.Call.Args
+		if call.Call.IsInvoke() {
+			args = append([]ssa.Value{call.Call.Value}, args...)
+		}
+		for _, a := range args {
+			if mi, ok := a.(*ssa.MakeInterface); ok {
+				a = mi.X
+			}
+			t := a.Type()
+			if sl, ok := t.Underlying().(*types.Slice); ok {
+				t = sl.Elem()
+			}
+			switch qualTypeName(t) {
+			case c23KubevirtAPI + ".VirtualMachineInstance", c23MetaV1 + ".ObjectMeta", c23MetaV1 + ".OwnerReference":
+				return true
+			}
+		}
+		return false
+	}
+	// conditions whose meaning is known (whatever their polarity): never "opaque"
+	understood := func(cond ssa.Value) bool {
+		for _, which := range []string{"VMIndexer", "VMInstanceIndexer"} {
+			if existsCond(true, which)(cond, true) {
+				return true
+			}
+		}
+		return false
+	}
+
+	n := 0
+	for _, f := range m.funcs {
+		if f.Parent() != nil || len(callsIn(f, false, func(fn *types.Func) bool { return isFunc(fn, c23KubevirtPkg, "DeferredInformers.VMInstanceIndexer") })) == 0 {
+			continue
+		}
+		host := fnName(f)
+		site := p.Pos(f.Pos())
+		if !c23BoolResult(f) {
+			c.Undecided("C23.vm/standalone/"+host, site, "%s consults the VMI informer cache but does not return a single bool; its verdict cannot be located", host)
+			continue
+		}
+		n++
+		noVM := c23NewLifter(existsCond(false, "VMIndexer"))
+		noVM.Opaque = func(v ssa.Value) bool { return c23BodylessCall(v) && !understood(v) }
+		noInst := c23NewLifter(anyOf(existsCond(false, "VMInstanceIndexer"), ownedByVM))
+		noInst.Depth = 2
+		noInst.Opaque = func(v ssa.Value) bool {
+			if understood(v) {
+				return false
+			}
+			if c23BodylessCall(v) {
+				if ex, ok := v.(*ssa.Extract); ok {
+					v = ex.Tuple
+				}
+				call := v.(*ssa.Call)
+				return mayKnowKind(call) && takesInstance(call)
+			}
+			// OwnerReference.Kind compared with something that is not a constant
+			if bo, ok := v.(*ssa.BinOp); ok && (bo.Op == token.EQL || bo.Op == token.NEQ) {
+				for _, pr := range [][2]ssa.Value{{bo.X, bo.Y}, {bo.Y, bo.X}} {
+					if _, isConst := constOf(pr[1]); isKind(pr[0]) && !isConst && !isVMKind(pr[1]) {
+						return true
+					}
+				}
+			}
+			return false
+		}
+		type verdict struct{ bad, opaque []string }
+		var vVM, vInst verdict
+		computed := false
+		nFalse := 0
+		for _, r := range returnsOf(f) {
+			if isPanicBlock(r.Block()) || len(r.Results) != 1 {
+				continue
+			}
+			cv, isConst := constOf(r.Results[0])
+			if isConst && cv.Kind() == constant.Bool && constant.BoolVal(cv) {
+				continue // "assume valid" is always safe
+			}
+			if !isConst {
+				computed = true
+				continue
+			}
+			nFalse++
+			for _, chk := range []struct {
+				l *c23Lifter
+				v *verdict
+			}{{noVM, &vVM}, {noInst, &vInst}} {
+				if guardedCut(r, chk.l.Pred) {
+					continue
+				}
+				at := p.Pos(r.Pos())
+				if len(chk.l.Unsure) > 0 || guardedCut(r, chk.l.PredOrOpaque) {
+					chk.v.opaque = append(chk.v.opaque, at)
+				} else {
+					chk.v.bad = append(chk.v.bad, at)
+				}
+			}
+		}
+		if computed {
+			c.Undecided("C23.vm/standalone/"+host, site, "%s returns a computed verdict; the evidence behind a false result cannot be decided", host)
+			continue
+		}
+		if nFalse == 0 {
+			c.Lost("%s never returns false", host)
+		}
+		rejected := func(l *c23Lifter) string {
+			if len(l.Rejected) == 0 {
+				return ""
+			}
+			var parts []string
+			for _, k := range sortedKeys(l.Rejected) {
+				parts = append(parts, k+"() "+l.Rejected[k])
+			}
+			return " [" + strings.Join(parts, "; ") + "]"
+		}
+		switch {
+		case len(vVM.bad) > 0:
+			c.Violate("C23.vm/novm/"+host, site, "%s returns false at %v without the VirtualMachine lookup (VMIndexer().GetByKey) having reported \"does not exist\": the address of an existing VM would be collected%s", host, vVM.bad, rejected(noVM))
+		case len(vVM.opaque) > 0:
+			c.Undecided("C23.vm/novm/"+host, site, "%s returns false at %v behind conditions computed by functions without a body", host, vVM.opaque)
+		default:
+			c.Ok("C23.vm/novm/"+host, site, "%d false verdict(s) of %s, each only after VMIndexer().GetByKey reported that the VM does not exist", nFalse, host)
+		}
+		switch {
+		case len(vInst.bad) > 0:
+			c.Violate("C23.vm/standalone/"+host, site,
+				"%s returns false at %v on a path where the VirtualMachineInstance exists and no owner reference was compared equal to kind %q: an instance that is not the left-over of a VirtualMachine (no owner, or a controller of another kind) is still running and its address would be collected%s",
+				host, vInst.bad, wantKind, rejected(noInst))
+		case len(vInst.opaque) > 0:
+			c.Undecided("C23.vm/standalone/"+host, site, "%s returns false at %v behind conditions computed by functions without a body", host, vInst.opaque)
+		default:
+			c.Ok("C23.vm/standalone/"+host, site, "%d false verdict(s) of %s, each only where VMInstanceIndexer().GetByKey reported no instance or an OwnerReference.Kind == %q comparison held", nFalse, host, wantKind)
+		}
+	}
+	if n == 0 {
+		c.Lost("no function of %s consults DeferredInformers.VMInstanceIndexer()", c23Pkg)
 	}
 }
